@@ -321,10 +321,57 @@ def gen_groups(tier, rng, only=None, registry=None, findings=()):
     return groups
 
 
+def addback_dividend(d, w, rng, tries=400):
+    """A dividend whose Knuth division by `d` (w limbs) takes the rare masked add-back (quotient estimate one too large
+    after both div3by2 corrections): n = q * (d with its low limbs zeroed) * B^j + small.  None if none is found."""
+    W = (1 << 64) - 1
+    dl = (d.bit_length() + 63) // 64
+    if w < 3 or dl < 3:
+        return None
+    top = (d >> (64 * (dl - 2))) << (64 * (dl - 2))
+    for _ in range(tries):
+        q = rng.choice([W, rng.getrandbits(64), (1 << 63) + rng.getrandbits(8), 1 + rng.getrandbits(3)])
+        j = rng.randrange(0, w - dl + 1)
+        n = ((q * top << (64 * j)) + rng.getrandbits(rng.choice([1, 8, 64, 120]))) & ((1 << (64 * w)) - 1)
+        tr = div_transcript(n, d, w, with_addback=True)
+        if any(isinstance(t, tuple) and t[-1] for t in tr[1:]):
+            return n
+    return None
+
+
+def addback_job(op, w, pslots, rng):
+    """[dividend, divisor] with an add-back digit, for the operations that run the Knuth loop on two operands."""
+    kinds = op['slots']
+    if len(kinds) != 2 or kinds[0] != 'u' or kinds[1] not in ('nz', 'pdiv') or w < 3:
+        return None
+    W = (1 << 64) - 1
+    if kinds[1] == 'pdiv':
+        d = pslots[1]
+    else:
+        hi = rng.choice([(1 << 63, 0), (W, W - 1), (rng.getrandbits(64) | (1 << 63), 0)])
+        d = (hi[0] << 128) | (hi[1] << 64) | W          # three significant limbs, all-ones below the two top limbs
+        if op['name'].startswith('int.'):
+            d >>= 1                                      # keep the divisor a positive Int
+    n = addback_dividend(d, w, rng)
+    if n is None:
+        return None
+    if op['name'].startswith('int.') and n >> (64 * w - 1):
+        n >>= 1
+        if not any(isinstance(t, tuple) and t[-1] for t in div_transcript(n, d, w, with_addback=True)[1:]):
+            return None
+    return [n, d]
+
+
 def gen_secrets(op, w, pslots, n, rng):
     kinds = op['slots']
     jobs = []
     seen = set()
+    ab = addback_job(op, w, pslots, rng)
+    if ab is not None:
+        # directed: the masked add-back of the Knuth loop must not show in the trace (phi-equal partners of this job are
+        # added by the fresh-secret sampling of the finding's abstraction class)
+        jobs.append(ab)
+        seen.add(tuple(ab))
     nspec = max(n * 3 // 4, 6)
     i = 0
     guard = 0
@@ -421,12 +468,16 @@ def int_abs(v, width):
 W64 = (1 << 64) - 1
 
 
-def div_transcript(n, d, width):
+def div_transcript(n, d, width, with_addback=False):
     """Mirror of Uint::div_rem / BoxedUint::div_rem_unchecked (src/uint/div.rs:42-130, src/uint/boxed/div.rs:134-235)
     on exact integers, recording every decision that the opt-level-3 build was seen to turn from a mask into a
     conditional jump: the bit length of the divisor (dwords, lshift = 0?), and per quotient digit the flags of
-    div3by2 (src/uint/div_limb.rs:154-189): q_maxed, and for both correction rounds `rem_hi != 0`, `qy <= rx`;
-    plus the add-back borrow.  (div2by1 is exact floor division given a correct reciprocal.)"""
+    div3by2 (src/uint/div_limb.rs:154-189): q_maxed, and for both correction rounds `rem_hi != 0`, `qy <= rx`.
+    The borrow that triggers the masked add-back (`ct_borrow`, about 2/2^64 per digit) is NOT part of the abstraction:
+    the optimized build of the unchanged tree keeps it a mask (checked with directed add-back dividends, see
+    `addback_dividend`), so a trace that depends on it is a violation (seeded change C01-m2).  `with_addback=True`
+    appends it to each digit's flags — used only to CONSTRUCT add-back inputs.
+    (div2by1 is exact floor division given a correct reciprocal.)"""
     if width == 1 or d == 0:
         return ('limb', d.bit_length() == 64)
     L = width
@@ -470,7 +521,8 @@ def div_transcript(n, d, width):
             x[i], borrow = r & W64, 1 if r < 0 else 0
         r = x_hi - carry - borrow
         borrow = 1 if r < 0 else 0
-        flags.append(bool(borrow))
+        if with_addback:
+            flags.append(bool(borrow))
         if borrow:
             carry = 0
             for i in range(xi + 1):
